@@ -827,3 +827,120 @@ func hasTrigger(ext, s string) bool {
 }
 
 func init() { Plans["C11"] = planC11 }
+
+// ---- C08 ----
+
+func noTabCR(s string) bool {
+	for i := 0; i < len(s); i++ {
+		if s[i] == '\t' || s[i] == '\r' {
+			return false
+		}
+	}
+	return true
+}
+
+func isBlankDoc(s string) bool {
+	for i := 0; i < len(s); i++ {
+		if s[i] != ' ' && s[i] != '\n' && s[i] != '\v' && s[i] != '\f' {
+			return false
+		}
+	}
+	return true
+}
+
+func planC08(tier string, seed int64) (*Plan, error) {
+	p := &Plan{MustReach: []string{"done"}}
+	thorough := tier == "thorough"
+	coreU, coreS, gfmX, gfmS := cfg("core", "", "unsafe"), cfg("core", "", ""), cfg("gfm", "", "unsafe,xhtml"), cfg("gfm", "", "")
+	cfgs := []string{coreU, coreS, gfmX, gfmS}
+	var jobs []interp.Job
+	for _, c := range cfgs {
+		for n := 1; n <= 2; n++ {
+			jobs = append(jobs, job("H_c08_quote", "cfg", c, "n", n))
+			jobs = append(jobs, job("H_c08_quote", "cfg", c, "n", n, "nest", 2))
+		}
+	}
+	s3 := []string{coreU}
+	if thorough {
+		s3 = cfgs
+	}
+	for _, c := range s3 {
+		jobs = append(jobs, job("H_c08_quote", "cfg", c, "n", 3))
+	}
+	// alphabets: HTML block starts of every type, fences, lists, setext, tables
+	la := 5
+	if thorough {
+		la = 7
+	}
+	alphas := []string{"<!-\na>", "<?\na>", "<!A\n>a", "<![CDAT\n]>", "<pre>\n/a", "<div\n> a", "`~\na ", "-1. \na", "a=-\n #", "a|-:\n "}
+	for i, a := range alphas {
+		c := cfgs[i%len(cfgs)]
+		if i == len(alphas)-1 {
+			c = gfmX
+		}
+		n := la
+		if len(a) > 6 {
+			n = la - 1
+		}
+		jobs = append(jobs, job("H_c08_quote", "cfg", c, "n", n, "alpha", a))
+	}
+	// the multi-line HTML block shapes (types 1-7): closed block followed by a line, as tokens
+	htmlPairs := [][2]string{{"<!--", "-->"}, {"<?", "?>"}, {"<!A", ">"}, {"<![CDATA[", "]]>"}, {"<pre>", "</pre>"}, {"<div>", "<a>"}}
+	nt := 5
+	if thorough {
+		nt = 6
+	}
+	var htmlToks [][]string
+	for i, hp := range htmlPairs {
+		ts := []string{hp[0], hp[1], "\n", "a", " "}
+		htmlToks = append(htmlToks, ts)
+		jobs = append(jobs, job("H_c08_quote", "cfg", cfgs[i%2], "n", nt, "tokens", joinTok(ts)))
+		jobs = append(jobs, job("H_c08_quote", "cfg", cfgs[(i+1)%2], "n", nt-1, "nest", 2, "tokens", joinTok(ts)))
+	}
+	jobs = append(jobs, tokenJobs("H_c08_quote", []string{"contain5"}, nt, []string{coreU})...)
+	jobs = append(jobs, tokenJobs("H_c08_quote", []string{"blocks2noTab"}, nt-2, []string{gfmX})...)
+	// corpus: W(C',1) over documents without TAB/CR
+	docs, err := LoadCorpus()
+	if err != nil {
+		return nil, err
+	}
+	var ok []Doc
+	for _, d := range docs {
+		if noTabCR(d.Markdown) && !isBlankDoc(d.Markdown) {
+			ok = append(ok, d)
+		}
+	}
+	nwin := 150
+	if thorough {
+		nwin = 3000
+	}
+	jobs = append(jobs, windowJobs("H_c08_quote", ok, seed, nwin, 1, []string{gfmX, coreU, gfmS})...)
+	// spec examples with the expected side taken from spec.json
+	spec, err := LoadSpec()
+	if err != nil {
+		return nil, err
+	}
+	nspec := 0
+	for _, d := range spec {
+		if noTabCR(d.Markdown) && !isBlankDoc(d.Markdown) {
+			jobs = append(jobs, job("H_c08_spec", "md", d.Markdown, "html", d.HTML, "name", d.Name))
+			nspec++
+		}
+	}
+	p.Jobs = jobs
+	p.Bounds = map[string]interface{}{
+		"S(2)":          "every non-blank TAB/CR-free byte string of length 1..2 x " + fmt.Sprint(cfgs) + ", quoted once and twice; S(3) x " + fmt.Sprint(s3),
+		"S(L,alphabet)": fmt.Sprintf("length %d (one less for alphabets over 6 bytes) over each of %q", la, alphas),
+		"tokens":        fmt.Sprintf("every sequence of %d tokens from each of %q (HTML block types 1-7 opened, closed and followed by more lines; %d tokens quoted twice), %d from contain5, %d from blocks2 without TAB (GFM)", nt, htmlToks, nt-1, nt, nt-2),
+		"W(C',1)":       fmt.Sprintf("%d seeded (TAB/CR-free corpus document, offset) pairs with one symbolic byte", nwin),
+		"spec":          fmt.Sprintf("%d TAB/CR-free non-blank examples of _test/spec.json, quoted, against the expected HTML of spec.json wrapped in a blockquote (core, unsafe, XHTML)", nspec),
+		"outside":       "longer free-form documents; quoting depth > 2",
+	}
+	p.Rule = "two conversions per path; the quoted document is built in the harness from the symbolic bytes"
+	return p, nil
+}
+
+func init() {
+	Plans["C08"] = planC08
+	tokenSets["blocks2noTab"] = []string{"# ", "---", "\n", "a", "1. ", "  ", "<div>", "[a]: b", "|", "~~~"}
+}
